@@ -1,4 +1,5 @@
 import PyramidModel.Lemmas.UrlGenCompile
+import PyramidModel.Lemmas.UrlGenCache
 import PyramidModel.Gen.C06
 /-!
 # C06 — a generated route URL is matched by its route and yields the supplied values
@@ -14,7 +15,8 @@ Reading guide
 * §2 the output is ASCII and obeys `( unreserved | PATH_SAFE | "%" HEX HEX )*`; it never holds `?` or `#`.
 * §3 it is one piece per token, and a literal's piece is the literal, quoted with safe `/` — decoding gives it back.
 * §4 a missing value is `KeyError`; nothing else makes the formatting fail.
-* §5 extra elements: appended, one individually quoted segment each (the recorded finding F-C06b is the cache).
+* §5 extra elements: appended, one individually quoted segment each; the `lru_cache` in front of the joiner is
+  transparent for every history (F-C06b, repaired by 9c714c3; the old key is kept as a decided regression fact).
 * §6 `route_url` = scheme://authority ++ `route_path`.
 * §7 **the round trip**: for admissible patterns and values the generated path, decoded the way a server decodes
   it, is matched by the same pattern and the dictionary is the supplied values — *partial*: a `*remainder` value must
@@ -32,13 +34,14 @@ open Pyr.Rx (Rx Ucd Lang)
 `quote_path_segment(·, safe=…)` then `.replace('%', '%%')`; placeholders as `'%%(%s)s' % name`; the closure decodes
 `bytes` first, quotes a remainder sequence element by element and joins with `/`, stringifies everything else, then
 `gen % newdict`; `_segment_cache` is keyed by `(segment, safe)`; `route_url` assembles
-`app_url + path + suffix + qs + anchor`; `_join_elements` sits behind `lru_cache` (what `joinElementsMemo` models).  Fails (by `decide`) as soon as the translator reads anything else. -/
+`app_url + path + suffix + qs + anchor`; `_join_elements` stringifies non-str/bytes elements into a tuple and calls the `lru_cache`d
+`_join_text_elements` (what `joinElementsMemo` models; the pre-9c714c3 shape is not recognised).  Fails (by `decide`) as soon as the translator reads anything else. -/
 theorem source_shape_recognised :
     Pyr.Gen.C06.recognised = true ∧ Pyr.Gen.C06.pctDoubled = true ∧ Pyr.Gen.C06.placeholderTpl = true ∧
     Pyr.Gen.C06.formatsTemplate = true ∧ Pyr.Gen.C06.bytesDecoded = true ∧ Pyr.Gen.C06.restPerElement = true ∧
     Pyr.Gen.C06.plainStringified = true ∧ Pyr.Gen.C06.cacheKeyedBySafe = true ∧
     Pyr.Gen.C06.quoteSegmentShape = true ∧ Pyr.Gen.C06.assemblyShape = true ∧
-    Pyr.Gen.C06.elemCacheLru = true := by decide
+    Pyr.Gen.C06.elemCacheLru = true ∧ Pyr.Gen.C06.elemKeyIsText = true := by decide
 
 /-- The safe sets read from the source: literals keep exactly `/`; the value set keeps `/`; the element set does not;
 all are ASCII without `%`; none lets `?` or `#` through; value and literal sets lie inside unreserved ∪ PATH_SAFE,
@@ -196,7 +199,8 @@ example : generate [.lit "/".toList, .ph "a".toList Rx.notSlashPlus] [("zz".toLi
 /-- **`extra_elements_appended_quoted`.**  With extra positional elements the result is the result without them,
 cut before the query string, plus a `/` (unless the path already ends with one), plus the elements, each quoted on
 its own with `PATH_SEGMENT_SAFE` and joined with `/`; each quoted element is a single segment (no `/`, `?`, `#`)
-that decodes back to the element. -/
+that decodes back to the element.  (Stated for the cache-free `routePath`; by `element_cache_transparent` it holds
+after every history of calls.) -/
 theorem extra_elements_appended_quoted (script : Text) (toks : List Tok) (elems : List Atom) (es : List Text)
     (kw : Kw) (qs frag path : Text) (hg : generate toks kw = .ok path) (he : atomTexts elems = some es)
     (hne : elems ≠ []) :
@@ -217,23 +221,47 @@ theorem extra_elements_appended_quoted (script : Text) (toks : List Tok) (elems 
       · decide
       · decide
 
-/-- With an empty element cache the memoised `_join_elements` is the plain one (so the theorem above is about every
-first call with a given tuple of elements). -/
-theorem element_cache_empty_is_plain (script : Text) (toks : List Tok) (elems : List Atom) (kw : Kw) (qs frag : Text) :
-    assembleMemo [] (quotedScript script) toks elems kw qs frag = routePath script toks elems kw qs frag := by
+/-- **`element_cache_transparent`.**  `_join_elements` keys its `lru_cache` on the elements' *texts* (9c714c3).  For
+every history of earlier calls — any element tuples, through any route — `route_path` answers what the cache-free
+computation answers, errors included: the key determines the result (`atomTKey_determines`), so every entry the cache
+ever holds is the uncached result of every tuple that maps to its key. -/
+theorem element_cache_transparent (history : List (List Atom)) (script : Text) (toks : List Tok) (elems : List Atom)
+    (kw : Kw) (qs frag : Text) :
+    assembleMemo (cacheAfterCalls atomTKey [] history) (quotedScript script) toks elems kw qs frag =
+      routePath script toks elems kw qs frag := by
   unfold assembleMemo routePath assemble
   cases generate toks kw with
   | error e => rfl
-  | ok path => simp only [routeSuffixMemo_nil]
+  | ok path =>
+    simp only [routeSuffixMemo_ok _ (cacheAfterCalls_ok atomTKey atomTKey_determines history [] (cacheOk_nil _))]
 
-/-- **Recorded finding F-C06b** (decided, replayed on the real code): `_join_elements` is `lru_cache`d on the tuple
-of elements and `True == 1` as a key, so after `route_path('r', True)` the call `route_path('r', 1)` appends `True`,
-not the element's own text. -/
-theorem element_cache_confuses_equal_keys :
-    let toks := [Tok.lit "/s".toList]
-    let cache := cacheAfter toks [] [] [[Atom.other "True".toList]]
-    assembleMemo cache [] toks [.int 1] [] [] [] = .ok "/s/True".toList ∧
-      routePath [] toks [.int 1] [] [] [] = .ok "/s/1".toList := by decide +kernel
+/-- the joiner alone: after any history the memoised `_join_elements` returns the plain per-element quoting -/
+theorem join_elements_history_independent (history : List (List Atom)) (elems : List Atom) :
+    (joinElementsMemo (cacheAfterCalls atomTKey [] history) elems).1 = joinElements elems :=
+  memo_transparent atomTKey atomTKey_determines history elems
+
+/-- the same for the history shape the driver replays: earlier `route_path('r', *h, **kw)` calls on the same route -/
+theorem element_cache_transparent_same_route (history : List (List Atom)) (script : Text) (toks : List Tok)
+    (elems : List Atom) (kw : Kw) (qs frag : Text) :
+    assembleMemo (cacheAfter toks kw [] history) (quotedScript script) toks elems kw qs frag =
+      routePath script toks elems kw qs frag :=
+  element_cache_transparent (reaching toks kw history) script toks elems kw qs frag
+
+example : (joinElementsMemo (cacheAfterCalls atomTKey [] [[.other "True".toList], [.other "1.0".toList]]) [.int 1]).1 =
+    .ok "1".toList := by decide +kernel
+
+/-- **Regression fact about the OLD key** (the repaired defect F-C06b, fixed by 9c714c3): with the objects themselves
+as key, `True == 1` shares an entry — after `_join_elements((True,))` the call `_join_elements((1,))` answered `True` —
+so the old key does *not* determine the result, and the transparency argument above fails exactly there. -/
+theorem old_element_key_confused_equal_values :
+    (joinMemo oldAtomKey (cacheAfterCalls oldAtomKey [] [[Atom.other "True".toList]]) [.int 1]).1 = .ok "True".toList ∧
+      joinElements [.int 1] = .ok "1".toList ∧
+      (joinMemo oldAtomKey (cacheAfterCalls oldAtomKey [] [[Atom.int 1]]) [.other "1.0".toList]).1 = .ok "1".toList ∧
+      ¬ KeyDetermines oldAtomKey := by
+  refine ⟨by decide +kernel, by decide +kernel, by decide +kernel, ?_⟩
+  intro h
+  have := h [Atom.other "True".toList] [.int 1] (by decide)
+  exact absurd this (by decide +kernel)
 
 /-! ## 6. route URL = scheme://authority + route path -/
 
